@@ -30,6 +30,7 @@ type Engine struct {
 	SpecFns   map[string]*SpecFn
 	Axioms    []string
 	SpecDefs  []string
+	RG        map[string]*RGSpec
 	ContractFiles []string
 
 	globalAddr map[*ssa.Global]int
